@@ -244,13 +244,22 @@ def _shoelace_sign(chain):
     return s > 0
 
 
-def count_pass(case, mode="structural"):
+def _tables_fingerprint():
+    out = []
+    for owner, name, table in faults.module_dicts():
+        if isinstance(table, dict):
+            out.append((owner, name, repr(sorted(table.items(), key=repr))))
+    return tuple(out)
+
+
+def count_pass(case, mode="structural", cold=False):
     """Fault-free run under the monitor: number of events, sites, dirty windows, the
-    reference result and reference panel."""
+    reference result and reference panel.  cold=True: nothing is asked of the operands
+    before the call, so the module-level memo tables are empty when it starts."""
     faults.cache_drop()
     objs = build_case(case)
     vals = [model.value(o) for o in objs]
-    pan0 = panel(objs)
+    pan0 = None if cold else panel(objs)
     mon = faults.Monitor.get()
     operands = operand_list(case, objs)
     fp0 = fingerprint(objs)
@@ -260,22 +269,38 @@ def count_pass(case, mode="structural"):
         if fingerprint(objs) != fp0:
             dirty.append(n)
 
+    last = [_tables_fingerprint()]
+
+    def watch_tables(n):
+        fp = _tables_fingerprint()
+        if fp != last[0]:
+            last[0] = fp
+            dirty.append(n)
+
     outcome, payload, info = mon.run(lambda: ops.perform(case["step"], operands), mode=mode,
-                                     trace=True, watch=watch if mode == "structural" else None)
+                                     trace=True,
+                                     watch=watch if mode == "structural" else (watch_tables if mode == "tables" else None))
     ans = ops.normalise(outcome, payload)
+    if cold:
+        faults.cache_drop()
+        pan0 = panel(build_case(case))
     return {"count": info["count"], "trace": info["trace"], "dirty": dirty, "answer": ans,
             "panel": pan0, "values": vals}
 
 
-def inject(case, k, mode, exc_name, ref, deep, k2=None):
+def inject(case, k, mode, exc_name, ref, deep, k2=None, cold=False):
     """One injection.  Returns (status, detail): status in fired-ok / not-fired / swallowed-ok
     / VIOLATION."""
     faults.cache_drop()
     objs = build_case(case)
     vals = [model.value(o) for o in objs]
-    pan_before = panel(objs)
-    if pan_before != ref["panel"]:
-        return "HARNESS", "panel before the call differs from the reference pass (non-determinism)", None
+    if cold:
+        pan_before = ref["panel"]  # answers of never-touched operands, from the reference pass
+        deep = True
+    else:
+        pan_before = panel(objs)
+        if pan_before != ref["panel"]:
+            return "HARNESS", "panel before the call differs from the reference pass (non-determinism)", None
     mon = faults.Monitor.get()
     operands = operand_list(case, objs)
     exc = faults.ERROR_KINDS[exc_name]
@@ -479,8 +504,9 @@ def _worker_task(case, ks, mode, excs, deep_every):
     out = {"fired": 0, "not_fired": 0, "swallowed": 0, "violations": [], "harness": [], "sites": set(),
            "by_exc": {}}
     t_task = time.time()
+    cold = mode == "tables"
     try:
-        ref = count_pass(case, mode)
+        ref = count_pass(case, mode, cold=cold)
         for i, k in enumerate(ks):
             exc = excs[i % len(excs)]
             deep = (k % deep_every) == 0
@@ -490,7 +516,7 @@ def _worker_task(case, ks, mode, excs, deep_every):
                 k2 = 1 + (k * 7919 + i) % ref["count"]
                 out["sequences"] = out.get("sequences", 0) + 1
             try:
-                status, detail, site = inject(case, k, mode, exc, ref, deep, k2)
+                status, detail, site = inject(case, k, mode, exc, ref, deep, k2, cold=cold)
             except Exception:  # noqa: BLE001
                 out["harness"].append(f"{case['name']} k={k}: {traceback.format_exc()[-600:]}")
                 continue
@@ -521,7 +547,10 @@ def _count_task(case):
     try:
         ref = count_pass(case, "structural")
         allc = count_pass(case, "all")["count"]
-        return {"structural": ref["count"], "all": allc, "dirty": ref["dirty"],
+        tab = count_pass(case, "tables", cold=True)
+        tabc = tab["count"]
+        return {"structural": ref["count"], "all": allc, "tables": tabc, "tables_dirty": tab["dirty"],
+                "dirty": ref["dirty"],
                 "answer_kind": ref["answer"][0]}
     finally:
         faulthandler.cancel_dump_traceback_later()
@@ -598,13 +627,31 @@ def check(tier, seed, jobs):
         chunk = 10 if counts[i]["all"] > 500000 else 40
         for j in range(0, len(ks), chunk):
             tasks.append((i, "structural", ks[j:j + chunk], excs))
+        # cold start: every (quick: a spread of) event inside the functions that own a
+        # module-level memo table, with nothing asked of the operands beforehand
+        ntab = counts[i].get("tables", 0)
+        if ntab and is_cat:
+            want = ntab if tier == "thorough" else min(ntab, 24)
+            tk = set(1 + ((seed + (j * ntab) // want) % ntab) for j in range(want))
+            # the windows in which a table is being filled (its content changes): every event
+            # from shortly before the change to just after it
+            for ev in counts[i].get("tables_dirty", []):
+                lo = ev - (60 if tier == "thorough" else 24)
+                step_w = 1 if tier == "thorough" else 3
+                tk.update(e for e in range(max(1, lo), min(ntab, ev + 3) + 1, step_w))
+            tk = sorted(tk)
+            plan[i]["table_events"] = ntab
+            plan[i]["table_points"] = len(tk)
+            for j in range(0, len(tk), 12):
+                tasks.append((i, "tables", tk[j:j + 12], ["interrupt", "memory"]))
         # leaf events: seeded sample over all events
         nall = counts[i]["all"]
         m = (6 if tier == "quick" else 60) if is_cat else (3 if tier == "quick" else 12)
         lk = sorted(set(rng.randint(1, max(1, nall)) for _ in range(m)))
         tasks.append((i, "all", lk, ["interrupt", "memory"]))
     tasks.sort(key=lambda t: -counts[t[0]]["all"] * len(t[2]))  # expensive chunks first
-    totals = {"fired": 0, "not_fired": 0, "swallowed": 0, "by_exc": {}, "by_mode": {"structural": 0, "all": 0}}
+    totals = {"fired": 0, "not_fired": 0, "swallowed": 0, "by_exc": {},
+              "by_mode": {"structural": 0, "all": 0, "tables": 0}}
     sites = set()
     violations = []
     per_case_fired = {}
@@ -756,12 +803,13 @@ def _known_c11(known, v):
 def _minimise_k(case, v):
     """Lower k while the same kind of violation persists (binary descent over a few probes)."""
     try:
-        ref = count_pass(case, v["mode"])
+        ref = count_pass(case, v["mode"], cold=v["mode"] == "tables")
         best = v
         for k in sorted(set([1, 2, 3, 5, 8, 13, 21, 34, 55, 89, 144, 233, 377, 610, 987])):
             if k >= best["k"]:
                 break
-            status, detail, site = inject(case, k, v["mode"], v["exc"], ref, True, v.get("k2"))
+            status, detail, site = inject(case, k, v["mode"], v["exc"], ref, True, v.get("k2"),
+                                          cold=v["mode"] == "tables")
             if status == "VIOLATION":
                 best = dict(v, k=k, details=detail, site=list(site) if site else None)
                 break
@@ -808,8 +856,9 @@ def replay(doc):
         print("replay: the invalid-argument call no longer changes the shape")
         return 0
     case, fl = doc["case"], doc["fault"]
-    ref = count_pass(case, fl["mode"])
-    status, detail, site = inject(case, fl["k"], fl["mode"], fl["exc"], ref, True, fl.get("k2"))
+    ref = count_pass(case, fl["mode"], cold=fl["mode"] == "tables")
+    status, detail, site = inject(case, fl["k"], fl["mode"], fl["exc"], ref, True, fl.get("k2"),
+                                  cold=fl["mode"] == "tables")
     print(f"replay: case {case['name']!r} fault {fl['exc']}@{fl['k']} ({fl['mode']}) site {site}: {status} {detail}")
     if status == "VIOLATION":
         print("REPRODUCED" if list(site or []) == list(fl.get("site") or []) else "reproduced at a different site")
